@@ -40,6 +40,7 @@ structure SpecSt where
   ttl : Nat := 0                                         -- lifetime (s) of access tokens (scenarios with OpenAPI auth on)
   clock : Nat := 0                                       -- settling time (ms) so far: a lower bound of the time that has passed
   tokens : List (String × Nat) := []                     -- alias, clock at which the login answered
+  running : List String := []                            -- the nodes that have been started and not killed
 
 def showV (v : Option String) : String := match v with | some x => x | none => "none"
 
@@ -67,7 +68,8 @@ def specStep (s : SpecSt) (ws : List String) : SpecSt × String :=
     | "up" :: _ =>
       -- a cluster that does not form within three attempts makes the scenario inconclusive: it is not counted as a
       -- violation of the properties checked here (start-up is not their subject) but is visible in the evidence
-      ({ pending := [], writes := [⟨"verif-up", some "up", true⟩], formed := ans == ["ok"] },
+      ({ pending := [], writes := [⟨"verif-up", some "up", true⟩], formed := ans == ["ok"],
+         running := (List.range ((s.pending.getD 1 "").toNat?.getD 3)).map fun i => toString (i + 1) },
         if ans == ["ok"] then "spec ok" else "-")
     | ["upauth", ttl] =>
       ({ pending := [], ttl := ttl.toNat?.getD 0, formed := ans == ["ok"] }, if ans == ["ok"] then "spec ok" else "-")
@@ -110,14 +112,16 @@ def specStep (s : SpecSt) (ws : List String) : SpecSt × String :=
     | ["kill", i] =>
       -- the ephemeral instances held by the gRPC connections of a dead node must disappear from the other nodes
       let mine := (s.gheld.filter (·.1 == i)).map (·.2)
-      ({ s0 with gdead := mine ++ s.gdead, sinceKill := 0, unsure := mine ++ s.unsure }, "-")
+      ({ s0 with gdead := mine ++ s.gdead, sinceKill := 0, unsure := mine ++ s.unsure, running := s.running.filter (· != i) }, "-")
     | ["start", i] =>
       -- the clients reconnect to the restarted node and register again: presence is not predicted any more
       let back := (s.gheld.filter (·.1 == i)).map (·.2)
-      ({ s0 with gdead := s.gdead.filter (fun e => !back.contains e) }, "-")
+      ({ s0 with gdead := s.gdead.filter (fun e => !back.contains e), running := i :: s.running.filter (· != i) }, "-")
     | ["settle", ms] => ({ s0 with sinceKill := s.sinceKill + ms.toNat?.getD 0, clock := s.clock + ms.toNat?.getD 0 }, "-")
     | ["caughtup", i, ms] =>
       -- C08: a node that joined late or fell behind is caught up (log or snapshot) - within the bound given
+      -- (a node that is not running cannot be asked to catch up: nothing to judge)
+      if !s.running.contains i then (s0, "-") else
       (s0, if ans.getD 1 "" == "ok" then "spec ok"
            else s!"spec FAIL node {i} has not applied what the other nodes have applied within {ms} ms ({" ".intercalate ans})")
     | ["getall", k] =>
